@@ -4,7 +4,10 @@
      ( 1 encrypted tlsExchange plainExchange )  a request over a completed handshake is routed and answered exactly
         as over plain TCP (handler log with method, path, raw target, headers, declared length, body; status; body);
      ( 2 encrypted tlsLog plainLog )  the same for a one-shot client whose last handshake message, request and close reach
-        the server in a single read. *)
+        the server in a single read;
+     ( 3 tlsClients encrypted liveAfter clearSawHttp calls answered )  overlapping connections, some completing the
+        handshake and some sending clear text: every TLS client is served once, no clear-text client sees HTTP, and
+        everything is released afterwards. *)
 From Coq Require Import String List Ascii ZArith Bool.
 From QH Require Import Bytes Value.
 Import ListNotations.
@@ -29,5 +32,7 @@ Definition chk_C20 (c o : value) : bool :=
   | VL [VI 0; VI hc; VI mc; VI http; VI live] => (hc =? 0) && (mc =? 0) && (http =? 0) && (live =? 0)
   | VL [VI 1; VI enc; a; b] => as_bool enc && veqb a b
   | VL [VI 2; VI enc; a; b] => as_bool enc && veqb a b
+  | VL [VI 3; VI ntls; VI nenc; VI live; VI http; VI calls; VI answered] =>
+      (nenc =? ntls) && (live =? 0) && (http =? 0) && (calls =? ntls) && (answered =? ntls)
   | _ => false
   end.
